@@ -81,6 +81,7 @@ c.finish(
         "the syntax hypotheses are restricted to the contexts that occur (a value before LF endobj / LF stream / LF startxref / the next object-stream member) and to well-formed values; C03's syntax_hypotheses_hold proves them for the canonical formatter and the validator's parser (an unrestricted version would be unsatisfiable: 5 LF 0 R reads as a reference).",
         "no_alias_write_inplace_refuted, put_twice_inplace_refuted, append_filter_direct_refuted: the unsafe variants (F1 in-place RC4; append on the caller's slice) are refuted, the variants the code uses now are proved safe.",
         "acceptance: the model refuses what the formatter refuses (accepts/caps_ok with the translated constants maxStringBytes, maxNameBytes, maxArrayLen, maxDictLen, maxScannerNestDepth, maxFilterChainLength, maxXRefSize, maxObjStmMembers) and distinguishes the three outcomes of a call: ok / refused with the writer unchanged / failed with part of an object written, after which Put, OpenStream, WriteCompressed and Close keep failing (dirty, run_lenient). Proved: lenient_run_is_run_of_accepted, failed_is_absorbing, close_ok_valid (a file that Close reports as written is the file of the accepted calls alone), refused_unchanged (the refusals decided before any effect), accepted_within_reader_caps (every value of an accepted history is within the limits) and reader_caps_force_writer_caps (for a parser that refuses beyond the limits, the syntax hypothesis of write_read is satisfiable only within them). The tie compares, per program, which calls were refused and whether the writer went on or failed (the calls behind a refused one are made as planned), on sweeps with every kind of value at the limit, one below and one above, in every position (Put, WriteCompressed member, stream dictionary, Put behind an open stream), with and without object streams, compact and human readable, encrypted; filter chains of 7/8/9/12 and declared+argument mixes; stale /DecodeParms shapes. Not in the model: the string limit under encryption (the instance that is run has identity ciphers), the last object numbers before 2^24 and the CCITT row bound (direct oracle only: written = read back, or the call fails and nothing is written); a stream dictionary beyond the limits is refused by the model at CloseStream (the code refuses at the Write that starts the stream when the data passes 1024 bytes - not generated).",
+        "Info text: every code point U+0000-U+017F and the other characters of PDFDocEncoding (plus some it does not have and one outside the basic plane) is written alone, between ASCII letters and next to a non-encodable character into the seven text fields of the Info dictionary and read back exactly (direct oracle; no Gallina table of PDFDocEncoding exists in this development, so no textstring theorem). Wide objects (hundreds of empty or small containers side by side, also 200 levels down) go through Put, WriteCompressed, stream dictionaries and deferred Puts; WriteCompressed gets its references ascending, descending and shuffled.",
         "findings (fixed in /repo): a WriteCompressed batch of more than 10000 objects was unreadable; operations after Close were accepted; a refused call left an incomplete object or a registered number behind (F72, F76).",
     ],
 )
